@@ -8,11 +8,24 @@ sin <defUnit> <absent|dispatch|divide> <kind>[:<opt>…] <count> <op> <op> …
    kind = num | int | bool | date | str | enum      (the last four: items only copied, `VKind.opaque`)
    opt  = n            the variable is neutralised
           e<Y,M,D>     the variable's `end`
-          d | b        harness only (arrays forced to disk / inputs fed through SimulationBuilder)
+          d | h | u    harness only (arrays forced to disk / the variable belongs to a group entity whose
+                       count differs from the number of persons / a one-entry document written without period,
+                       the period being the builder's default period)
+          b            the leading S ops are ONE situation document given to `SimulationBuilder.build_from_entities`:
+                       consumed by `finalize_variables_init` in ITS order (`builderFeed`); all answer ok, or all ERR
+                       (the construction failed: the history continues on a fresh simulation)
+          v            the leading S ops are ONE short-form document `{variable: {period: values}}` given to
+                       `build_from_dict` -> `build_from_variables`: consumed in document order (`feedAll`)
    op = S|<period>|<mode>|<v1;v2;…>   Simulation.set_input (checks `end`)   -> ok | ERR
         H|<period>|<mode>|<v1;v2;…>   Holder.set_input directly             -> ok | ERR
         G|<period>[|<spelling>]       get_array            -> v1;v2;… | none
         A|<period>[|<spelling>]       calculate_add        -> v1;v2;… | empty | ERR
+        C|<period>[|<spelling>]       calculate (one period; an unknown value is cached) -> v1;v2;… | ERR
+        X                             the simulation is replaced by its `clone()`       -> ok
+        Z|<period>[|<spelling>]       calculate_add, then the caller overwrites the array it got back in place
+                                      (the answer is the value before that)              -> as A
+        M|<k>                         the caller overwrites ITS OWN object number `k` in place, after the calls
+                                      that received it: an argument is an input, the store does not follow  -> ok
         K                             all known periods    -> [p=v1;v2&p=…]   (sorted)
 ```
 One case per line (a fresh holder), the answers of the ops separated by one blank. `<mode>` says
@@ -69,30 +82,38 @@ def parseKind? : String → Option VKind
   | "bool" => some .opaque | "date" => some .opaque | "str" => some .opaque | "enum" => some .opaque
   | _ => none
 
-/-- `<kind>[:<opt>…]` -> (kind, neutralised, end) -/
-def parseKindOpts? (tok : String) : Option (VKind × Bool × Option Date) :=
+/-- how the leading inputs reach the simulation -/
+inductive Route | calls | builder | vars
+deriving DecidableEq
+
+/-- `<kind>[:<opt>…]` -> (kind, neutralised, end, route) -/
+def parseKindOpts? (tok : String) : Option (VKind × Bool × Option Date × Route) :=
   match tok.splitOn ":" with
   | [] => none
   | k :: opts => do
     let kind ← parseKind? k
-    let rec go (neut : Bool) (e : Option Date) : List String → Option (Bool × Option Date)
-      | [] => some (neut, e)
+    let rec go (neut : Bool) (e : Option Date) (rt : Route) : List String → Option (Bool × Option Date × Route)
+      | [] => some (neut, e, rt)
       | o :: r =>
-        if o = "n" then go true e r
-        else if o = "d" ∨ o = "b" then go neut e r
+        if o = "n" then go true e rt r
+        else if o = "d" ∨ o = "h" ∨ o = "u" then go neut e rt r
+        else if o = "b" then go neut e .builder r
+        else if o = "v" then go neut e .vars r
         else if o.startsWith "e" then
           match parseDate? ((o.drop 1).toString) with
-          | some d => go neut (some d) r
+          | some d => go neut (some d) rt r
           | none => none
         else none
-    let (neut, e) ← go false none opts
-    pure (kind, neut, e)
+    let (neut, e, rt) ← go false none .calls opts
+    pure (kind, neut, e, rt)
 
 inductive SinOp
   | set (p : Period) (v : Vec)
   | hset (p : Period) (v : Vec)
   | get (p : Period)
   | add (p : Period)
+  | one (p : Period)
+  | clone
   | known
 
 def parseOp? (tok : String) : Option SinOp :=
@@ -107,6 +128,12 @@ def parseOp? (tok : String) : Option SinOp :=
   | ["G", p, _] => do pure (.get (← parsePeriod? p))
   | ["A", p] => do pure (.add (← parsePeriod? p))
   | ["A", p, _] => do pure (.add (← parsePeriod? p))
+  | ["C", p] => do pure (.one (← parsePeriod? p))
+  | ["C", p, _] => do pure (.one (← parsePeriod? p))
+  | ["X"] => some .clone
+  | ["M", k] => if k ≠ "" ∧ k.all Char.isDigit then some .clone else none
+  | ["Z", p] => do pure (.add (← parsePeriod? p))
+  | ["Z", p, _] => do pure (.add (← parsePeriod? p))
   | ["K"] => some .known
   | _ => none
 
@@ -127,16 +154,40 @@ def runOps (var : VarSpec) : Store → List SinOp → List String
     | .ok (some v, s') => showVec v :: runOps var s' r
     | .ok (none, s') => "empty" :: runOps var s' r
     | .error _ => "ERR" :: runOps var s r
+  | s, .one p :: r =>
+    match calcOne var s p with
+    | .ok (v, s') => showVec v :: runOps var s' r
+    | .error _ => "ERR" :: runOps var s r
+  | s, .clone :: r => "ok" :: runOps var s r
   | s, .known :: r => showStore s :: runOps var s r
+
+/-- the leading `S` ops (the document) and the rest -/
+def splitDoc : List SinOp → List (Period × Vec) × List SinOp
+  | .set p v :: r => let (d, rest) := splitDoc r; ((p, v) :: d, rest)
+  | ops => ([], ops)
+
+def runCase (var : VarSpec) (rt : Route) (ops : List SinOp) : List String :=
+  match rt with
+  | .calls => runOps var [] ops
+  | .builder =>
+    let (doc, rest) := splitDoc ops
+    match builderFeed var [] doc with
+    | .ok s => doc.map (fun _ => "ok") ++ runOps var s rest
+    | .error _ => doc.map (fun _ => "ERR") ++ runOps var [] rest
+  | .vars =>
+    let (doc, rest) := splitDoc ops
+    match feedAll var [] doc with
+    | .ok s => doc.map (fun _ => "ok") ++ runOps var s rest
+    | .error _ => doc.map (fun _ => "ERR") ++ runOps var [] rest
 
 def handleSin (args : List String) : String :=
   match args with
   | du :: rule :: kind :: cnt :: ops =>
     match DUnit.ofName du, parseRule? rule, parseKindOpts? kind, cnt.toNat?, ops.mapM parseOp? with
-    | some du, some rule, some (kind, neut, e), some cnt, some ops =>
+    | some du, some rule, some (kind, neut, e, rt), some cnt, some ops =>
       if ops.isEmpty then "BAD"
-      else " ".intercalate (runOps { defUnit := du, rule := rule, kind := kind, count := cnt,
-                                     neutralized := neut, endDate := e } [] ops)
+      else " ".intercalate (runCase { defUnit := du, rule := rule, kind := kind, count := cnt,
+                                      neutralized := neut, endDate := e } rt ops)
     | _, _, _, _, _ => "BAD"
   | _ => "BAD"
 
